@@ -233,10 +233,104 @@ def part_b(ck, tier):
     ck.notes['parseinfo_dict_results'] = nd
 
 
+def spec_nodes(v, out):
+    """collect (class, admissible (rule,pos,end) triples) of every object node of a tagged spec value, in traversal order"""
+    t = v['t']
+    if t == 'o':
+        out.append((v['cls'], [[p['rule'], p['pos'], p['end']] for p in (v.get('pi') or [])]))
+        for _k, x in v['v']:
+            spec_nodes(x, out)
+    elif t == 'd':
+        for _k, x in v['v']:
+            spec_nodes(x, out)
+    elif t == 'l':
+        for x in v['v']:
+            spec_nodes(x, out)
+    return out
+
+
+def impl_nodes(v, out):
+    if isinstance(v, dict) and '__node__' in v:
+        out.append((v['__node__'], v.get('pi')))
+        for _k, x in v['attrs'].items():
+            impl_nodes(x, out)
+    elif isinstance(v, dict):
+        for k, x in v.items():
+            if k != '__pi__':
+                impl_nodes(x, out)
+    elif isinstance(v, list):
+        for x in v:
+            impl_nodes(x, out)
+    return out
+
+
+def part_c(ck, tier):
+    """model nodes carry the name of a rule that returned them and the offsets of that rule's match"""
+    from ..absgrammar import ovr
+    from ..objreplay import run_obj_case
+    a, b, p = tok('a'), tok('b'), tok('+')
+    gs = {
+        'nodes': grammar(rule('s', seq(named('l', call('y')), named('r', star(call('y')))), typ=['Root']), rule('y', named('v', alt(a, b)), typ=['Leaf'])),
+        'override-of-untyped': grammar(rule('s', seq(ovr(call('m')), opt(p)), typ=['Simple']), rule('m', seq(named('k', a), named('w', opt(b))))),
+        'override-of-typed': grammar(rule('s', seq(opt(p), ovr(call('y')), opt(p)), typ=['Wrap']), rule('y', named('v', alt(a, b)), typ=['Leaf'])),
+        'ast-node': grammar(rule('s', seq(call('y'), opt(call('y'))), typ=['Pair']), rule('y', alt(a, b), typ=['Leaf'])),
+    }
+    texts = all_texts(['a', 'b', '+', ' ', '\n'], 3 if tier == 'quick' else 4) + [list(t) for t in [' a b+', 'a\nb', '\n a +', '+ab+']]
+    jobs, cases = Jobs(), []
+    for name, g in gs.items():
+        cfg = make_cfg(chars_of(g, texts), act='model')
+        cfg['parseinfo'] = True
+        jobs.add(g, cfg, texts)
+        cases.append(default_case(to_ebnf(g), texts, label=name, settings={'parseinfo': True}))
+    r, spec = run_oracle(jobs)
+    ck.add_tlc(r, 'PegSemBatch(act=model, parseinfo)')
+    impl = run_impl(cases, fn=run_obj_case, chunk=1)
+    n = 0
+    for j, (c, im) in enumerate(zip(cases, impl), 1):
+        if im['compile']['k'] != 'ok':
+            ck.violation({'kind': 'parse', 'inputs': {'grammar': c['ebnf']}, 'expected': 'compiles', 'observed': im['compile']}, key='c-compile' + c['ebnf'])
+            continue
+        for t, (s, o) in enumerate(zip(spec[j], im['res'])):
+            if s['r']['k'] != 'ok':
+                continue
+            want = spec_nodes(s['r']['v'], [])
+            for how in ('asmodel', 'builder'):
+                got = o[how]
+                ck.count(evaluations=1, traces=1)
+                if got['k'] != 'ok':
+                    continue
+                have = impl_nodes(got['v'], [])
+                n += len(have)
+                why = None
+                if sorted(x[0] for x in want) != sorted(x[0] for x in have):
+                    continue            # tree shape is C07's verdict
+                pool = list(want)       # attribute order is free: match every real node with an unused specification node
+                for cls, pi in have:
+                    if pi is None:
+                        why = f'node {cls} carries no parseinfo'
+                        break
+                    k = next((i for i, (c2, pis) in enumerate(pool) if c2 == cls and pi[:3] in pis), None)
+                    if k is None:
+                        why = (f'node {cls}: parseinfo {pi[:3]} is not (rule, start, end) of a rule that returned such a node: '
+                               f'{[p for c2, p in pool if c2 == cls]}')
+                        break
+                    pool.pop(k)
+                    if pi[3] != line_of(c['texts'][t], pi[1]):
+                        why = f'node {cls}: parseinfo.line {pi[3]}, offset {pi[1]} is on line {line_of(c["texts"][t], pi[1])}'
+                        break
+                if why:
+                    ck.violation({'kind': 'parse', 'inputs': {'grammar': c['ebnf'], 'text': c['texts'][t], 'how': how, 'settings': {'parseinfo': True}},
+                                  'expected': want, 'observed': have, 'why': why, 'spec': 'PegSem!WithInfo (model nodes)'},
+                                 key=c['ebnf'] + how + why.split(':')[0][:24])
+    ck.cov['distinct_nontrivial'] += n
+    ck.notes['model_nodes_with_parseinfo'] = n
+
+
 def run(tier):
     ck = Check('C12', tier)
     part_a(ck, tier)
     part_b(ck, tier)
+    part_c(ck, tier)
     ck.cov['rule'] = ('(a) every text over {x, space, LF, CR} up to length 5 (quick) / 7 (thorough) x every offset 0..len x '
                       '{TextLinesCursor, BufferCursor} x {lineinfo, lineat, poscol}; (b) 7 named-rule grammars (flat, nested, alias, token rule, '
                       'lists, backtracking/memo hits, left recursion) x all texts over {a,b,space,LF} up to 4/5 (+8 with CR/CRLF) with parseinfo on')
